@@ -228,6 +228,16 @@ def run(run: core.Run):
         for tol in (0.5, 1.0) if quick else TOLS:
             for m in METHODS:
                 cases.append({"axes": [a, b, c], "tol": tol, "method": m, "weights": "none", "seed": run.seed})
+    # acquisition order: every ordering of a 3-point axis (a dataset's own global axis need not be sorted)
+    perm3 = [list(p) for a3 in (itertools.combinations(grid[:4] if quick else grid[:5], 3)) for p in itertools.permutations(a3)
+             if list(p) != sorted(p)]  # fmt: skip
+    for pa in perm3:
+        for b in ax2:
+            for tol in (0.25, 1.0):
+                for m in METHODS:
+                    cases.append({"axes": [pa, b], "tol": tol, "method": m, "weights": "none", "seed": run.seed})
+                    cases.append({"axes": [b, pa], "tol": tol, "method": m, "weights": "last", "seed": run.seed})
+    run.bounds["axis_orders"] = "all orderings of every 3-point axis over the first %d grid points" % (4 if quick else 5)
     run.map("provider", cases, chunksize=64)
     # end to end
     axe = subsets(2, grid) if quick else subsets(3)
@@ -242,6 +252,12 @@ def run(run: core.Run):
             if len(a) + len(b) + len(c) <= 4:
                 for m in METHODS:
                     e2e.append({"axes": [a, b, c], "tol": 0.5, "method": m, "weights": "last", "seed": run.seed})
+    for pa in perm3 if not quick else [p for p in perm3 if set(p) == set(grid[:3])]:
+        for b in subsets(2, grid[:4]):
+            for tol in (0.25, 1.0):
+                for m in METHODS if not quick else ["nearest"]:
+                    e2e.append({"axes": [pa, b], "tol": tol, "method": m, "weights": "none", "seed": run.seed})
+                    e2e.append({"axes": [b, pa], "tol": tol, "method": m, "weights": "none", "seed": run.seed})
     run.map("e2e", e2e)
     run.rule = (
         "exhaustive: all ordered tuples of global axes (non-empty subsets of a 7-point grid) x tolerances x methods "
